@@ -3,7 +3,8 @@ package v1
 // verif:search
 // Replay concretiser for obligations of v1.LatestRevision (C12). The solver's model is over
 // abstract objects; a failing input is looked for among all lists of at most 3 revisions with
-// numbers 1..3, each controlled by the composition or not and carrying the composition's current
+// numbers 1..3, each controlled by the composition, by someone else or by nobody (but labelled
+// with the composition's name) and carrying the composition's current
 // hash label or not, and checked against the contract's postconditions restated in Go.
 
 import (
@@ -25,14 +26,18 @@ func TestVerifReplay(t *testing.T) {
 		rev        int64
 		controlled bool
 		current    bool
+		orphan     bool // no controller at all, but labelled with the composition's name
 	}
 	var shapes []shape
 	for rev := int64(1); rev <= 3; rev++ {
 		for _, ctl := range []bool{true, false} {
 			for _, cur := range []bool{true, false} {
-				shapes = append(shapes, shape{rev, ctl, cur})
+				shapes = append(shapes, shape{rev, ctl, cur, false})
 			}
 		}
+	}
+	for rev := int64(1); rev <= 3; rev++ {
+		shapes = append(shapes, shape{rev, false, true, true})
 	}
 	var lists [][]shape
 	var gen func(cur []shape, n int)
@@ -54,6 +59,9 @@ func TestVerifReplay(t *testing.T) {
 			r.Spec.Revision = s.rev
 			if s.controlled {
 				r.OwnerReferences = []metav1.OwnerReference{{UID: c.UID, Name: c.Name, Controller: ptr.To(true)}}
+			} else if s.orphan {
+				r.Labels[LabelCompositionName] = c.Name
+				r.OwnerReferences = []metav1.OwnerReference{{UID: "a-mere-owner", Name: "owner"}}
 			} else {
 				r.OwnerReferences = []metav1.OwnerReference{{UID: "someone-else", Name: "other", Controller: ptr.To(true)}}
 			}
@@ -63,7 +71,7 @@ func TestVerifReplay(t *testing.T) {
 				r.Labels[LabelCompositionHash] = "another-hash"
 			}
 			revs = append(revs, r)
-			desc += fmt.Sprintf("[%s rev %d controlled=%v current-hash=%v] ", r.Name, s.rev, s.controlled, s.current)
+			desc += fmt.Sprintf("[%s rev %d controlled=%v current-hash=%v uncontrolled-but-labelled=%v] ", r.Name, s.rev, s.controlled, s.current, s.orphan)
 		}
 		got := LatestRevision(c, revs)
 		var want int64
